@@ -99,12 +99,18 @@ class C09(Check):
         res = self.pool.run_all([{"flavour": "ser-asan", "kind": "c09count", "args": {"obj": o}, "timeout": 60} for o in range(NMENU)])
         for o, r in enumerate(res):
             if r["ok"]:
-                counts[o] = (r["res"]["faults"], r["res"]["obj_bytes"])
+                counts[o] = (r["res"]["faults"], r["res"]["obj_bytes"], r["res"]["smoke"])
         self.stats["objects"] = len(counts)
         jobs = []
         # quick: a rotating third of the enumeration per object (by seed); thorough: all
-        for o, (nf, nbytes) in counts.items():
+        prio = []
+        for o, (nf, nbytes, nsmoke) in counts.items():
             stale = (o + 1) % NMENU
+            # the smoke set runs completely in every pass, first
+            for prec in (64, 32):
+                for s0 in range(0, nsmoke, CHUNK):
+                    a = {"obj": o, "stale": stale, "set": "smoke", "from": s0, "to": min(nsmoke, s0 + CHUNK), "precision": prec}
+                    prio.append({"flavour": "ser-asan", "kind": "c09", "args": a, "timeout": 8})
             for prec in (64, 32):
                 starts = list(range(0, nf, CHUNK))
                 if prec == 32:
@@ -143,6 +149,8 @@ class C09(Check):
                          "args": {"obj": o, "stale": rng.randrange(NMENU), "faults": ";".join(fl), "precision": rng.choice([64, 64, 32]),
                                   "W": 2, "thr": 64, "seed": rng.randrange(1, 1 << 30)}, "timeout": 8, "multi": True})
         rng.shuffle(jobs)
+        jobs = prio + jobs
+        self.stats["smoke_range_jobs"] = len(prio)
         results = self.pool.run_all(jobs, deadline=self.deadline)
         samples = []
         ngroup = {}
@@ -188,7 +196,7 @@ class C09(Check):
                     "fault actually changed the stored bytes (not_applied cases are excluded) and the import returned",
             "samples": samples or [{"note": "see fault_kinds_fired"}],
             "fault_kinds_fired": self.fired, "import_statuses": self.statuses, "totals": self.stats,
-            "enumeration": {str(o): {"single_faults": c[0], "obj_text_bytes": c[1]} for o, c in counts.items()},
+            "enumeration": {str(o): {"single_faults": c[0], "obj_text_bytes": c[1], "smoke_faults_always_run": c[2]} for o, c in counts.items()},
             "exhaustive": False,
             "components": {"real": "manifold library (MeshGL/MeshGL64 ingest, ReadOBJ/WriteOBJ, all consuming operations)",
                            "stub": "storage between export and import (SimStore byte images, SimStreambuf); oneTBB runtime in par-asan"},
